@@ -202,4 +202,9 @@ TilingAsCodedOK == kind \in {"array", "range"} => ExactlyOnce(TiledVisitsAsCoded
 Bounded == \A j \in 1..Len(vals) : Abs(vals[j]) <= MaxAbs
 View == <<kind, vals, tile, rng>>
 Emit == Len(hist) < MaxHist \/ (PrintT(<<"B", ToJson(hist)>>) /\ FALSE)
+\* simulation (tlc -simulate): a CONSTRAINT would be evaluated on every candidate successor of the last
+\* state; instead the behaviour prints itself once in a stuttering step when it is complete
+SimNext == \/ (Len(hist) < MaxHist /\ Next)
+           \/ (Len(hist) = MaxHist /\ PrintT(<<"B", ToJson(hist)>>) /\ UNCHANGED vars)
+SimSpec == Init /\ [][SimNext]_vars
 =============================================================================
